@@ -207,9 +207,9 @@ PROPS["C15"] = {
 
 PROPS["C18"] = {
     "level": "other",
-    "technique": "Verus contracts on the extracted TopicFilter::matches (equals the filter's denotation, recursion through And / Or with the any / all closures lifted), FilteredReceiver::recv (delivers the first pending batch that matches, skips exactly the non-matching ones before it) and the WHERE-clause extractor of the live filter (try_column_op_value, try_extract_comparison, conjunction_of, extract_predicates_from_expr over a sqlparser AST shim: for comparisons in either operand order, AND, OR and parentheses the conjunction of the extracted list is equivalent to the WHERE clause)",
-    "verus": ["c18_filters.rs.in"],
-    "explanation": "Filter denotation, delivery order and predicate extraction are proved for all filters, metadata, pending sequences and supported WHERE expressions. The row-mask evaluation of the extracted predicates on arrow arrays (QueryFilter::apply, apply_predicate_to_mask, apply_comparison: null handling, float epsilon equality) and the merge-timestamp cut are not under contract; lag-induced drops are excluded by the property.",
+    "technique": "Verus contract on the extracted QueryFilter::apply_comparison and compare_f64 (row mask of `column OP literal` over typed arrow arrays: NULL never matches, every operator is its own symbol, a number literal is compared numerically against both numeric column types); Verus contracts on the extracted TopicFilter::matches (equals the filter's denotation, recursion through And / Or with the any / all closures lifted), FilteredReceiver::recv (delivers the first pending batch that matches, skips exactly the non-matching ones before it) and the WHERE-clause extractor of the live filter (try_column_op_value, try_extract_comparison, conjunction_of, extract_predicates_from_expr over a sqlparser AST shim: for comparisons in either operand order, AND, OR and parentheses the conjunction of the extracted list is equivalent to the WHERE clause)",
+    "verus": ["c18_filters.rs.in", "c18_mask.rs.in"],
+    "explanation": "Filter denotation, delivery order and predicate extraction are proved for all filters, metadata, pending sequences and supported WHERE expressions. The leaf of the row-mask evaluation (apply_comparison) is under contract; the predicate-tree walk apply_predicate_to_mask (AND / OR / NOT over masks, IN / BETWEEN through closure-based leaf helpers), QueryFilter::apply (merge-timestamp cut, any(), filter_record_batch) are not; float equality is the code's epsilon equality, taken as intended; lag-induced drops are excluded by the property.",
     "assumptions": [
         "Iterator::any / all over a slice = exists / forall over its elements (combinator shims over the lifted closures); Vec::contains",
         "sqlparser's Expr has the shapes of the shim enum (BinaryOp{left,op,right}, Nested, Identifier, CompoundIdentifier, Value, other); parse_sql_value is an opaque literal reader; to_lowercase is a function",
